@@ -55,7 +55,7 @@ def run_history(rng, sh, nsteps):
     ev = []
     removable = []      # (direction index, knot, copies that can still be removed exactly)
     for _ in range(nsteps):
-        acts = ["insert", "insert", "insert", "refine", "translate", "scale_weights", "read"]
+        acts = ["insert", "insert", "insert", "refine", "translate", "scale", "scale_weights", "read"]
         if removable:
             acts += ["remove", "remove", "remove"]
         if pd == 1:
@@ -119,6 +119,10 @@ def run_history(rng, sh, nsteps):
             vec = [rng.randint(-2, 2) for _ in range(obj.dimension)]
             e["vec"] = [rat(v) for v in vec]
             operations.translate(obj, [float(v) for v in vec], inplace=True)
+        elif a == "scale":
+            f = rng.choice([Fraction(2), Fraction(1, 2), Fraction(-1)])
+            e["f"] = rat(f)
+            operations.scale(obj, float(f), inplace=True)
         elif a == "scale_weights":
             if not obj.rational:
                 e = {"a": "read"}
@@ -160,10 +164,10 @@ def validate(traces, timeout=1800):
     return accepted, mism, res
 
 
-ACTION_PROPERTY = {"insert": "C04", "refine": "C05", "remove": "C06", "scale_weights": "C09", "translate": "C10",
+ACTION_PROPERTY = {"insert": "C04", "refine": "C05", "remove": "C06", "scale_weights": "C09", "translate": "C10", "scale": "C10",
                    "reverse": "C12", "transpose": "C12", "flip": "C12", "read": "C12"}
 ACTION_SITE = {"insert": "operations.insert_knot", "refine": "operations.refine_knotvector", "remove": "operations.remove_knot",
-               "scale_weights": "NURBS.weights.setter", "translate": "operations.translate", "reverse": "Curve.reverse",
+               "scale_weights": "NURBS.weights.setter", "translate": "operations.translate", "scale": "operations.scale", "reverse": "Curve.reverse",
                "transpose": "Surface.transpose", "flip": "operations.flip", "read": "getter"}
 
 
